@@ -416,7 +416,9 @@ class Worker:
                 z = q_in.get()
                 if z is None:
                     q_in.put(z)  # broadcast to one fellow worker
-                    q_out.put(z)
+                    # Do not pass the end marker on to `q_out`: fellow workers may
+                    # still be delivering results, which the reader of `q_out` must
+                    # not miss. That reader is stopped by its own servlet (or server).
                     break
 
                 uid, x = z
@@ -482,7 +484,6 @@ class Worker:
                 batch = self._get_input_batch()
                 if batch is None:
                     q_in.put(batch)  # broadcast to fellow workers.
-                    q_out.put(batch)
                     break
 
                 # The batch is a list of (ID, value) tuples.
@@ -564,7 +565,6 @@ class Worker:
                         if z is None:
                             buffer.put(z)
                             q_in.put(z)  # broadcast to fellow workers.
-                            q_out.put(z)
                             return
                         uid, x = z
 
